@@ -88,6 +88,13 @@ def run(tool, argv, stdin_text=None, sandbox=None, fault=None):
     real_open = builtins.open
     if fault and "write_after" in fault:
         builtins.open = _make_faulty_open(real_open, fault)
+    import warnings
+    import yamlpath.common.parsers as _parsers
+    old_parsers_stdin = _parsers.stdin
+    _parsers.stdin = sys.stdin          # parsers.py binds sys.stdin at import time
+    saved_filters = warnings.filters[:]
+    warnings.resetwarnings()            # every run starts from the interpreter's default filters,
+    warnings.simplefilter("default")    # as a fresh process would
     try:
         mod.main()
     except SystemExit as e:
@@ -96,6 +103,8 @@ def run(tool, argv, stdin_text=None, sandbox=None, fault=None):
         exc = "%s: %s" % (type(e).__name__, e)
         code = -1
     finally:
+        warnings.filters[:] = saved_filters
+        _parsers.stdin = old_parsers_stdin
         builtins.open = real_open
         st["armed"] = False
         sys.argv, sys.stdin, sys.stdout, sys.stderr = old
